@@ -25,7 +25,9 @@ proof obligation.
   `Delay.denseForward` / `directForward` / `denseForward` / `convForward` for one batch row.
 * `gen_selector_dense` / `_direct` / `_lateral` / `_conv` (`selector` is `Delay.selectorDense` / `selectorDirect` /
   `selectorConv`, repeated `batchsz` times; the `_none` variants: all-zero selector without a `delay_` parameter),
-  `gen_syncurrent_*`, `gen_synspike_*` (`Connection.syncurrent` / `synspike` are `Delay.syncurrent` / `synspike`).
+  `gen_syncurrent_dense` / `_direct` / `_lateral` / `_conv`, `gen_synspike_dense` / `_direct` / `_lateral`
+  (`Connection.syncurrent` / `synspike` are `Delay.syncurrent` / `synspike`; `Conv2D`'s `synspike` is regenerated but
+  not tied — `SynIsConv` says nothing about spikes).
 * `gen_lateral_set_weight`, `gen_lateral_set_delay`, `gen_lateral_set_bias` — the property setters of
   `LinearLateral` are `Conn.Lateral.step (.setW v)` / `(.setD v)` / `(.setB v)`: the mask is re-applied on EVERY weight
   and delay assignment (the delay mask does not depend on `delayedby`; without a `delay_` attribute the assignment is a
